@@ -94,8 +94,10 @@ CHECKS = {
           "decorator's message synthesis, the ServerBase Ignored handling and the out-object-to-message step of XmlDocument, "
           "Soap11 and HierDictDocument; the if/elif chains, is_out_bare(), the packing loops and the protocols' non-wrapped "
           "branch are regenerated from the sources on every run (Gen/NullSrv.v). Codecs enter as a round-trip hypothesis "
-          "(C01/C02). Two wire-side regions are listed findings (XmlDocument non-wrapped replies, bare requests over dict "
-          "documents). Not modelled: @mrpc, aux contexts, async results, push output, Redirect, non-default message naming.",
+          "(C01/C02). Five defects repaired (NullServer bare argument with an inherited class, Ignored with several return "
+          "values, ostr+Ignored; by C01: XmlDocument non-wrapped replies; by C02: bare requests over the dict documents) - "
+          "the two wire-side repairs are tracked by generated constants (xml_nonwrapped, hier_bare_lookup) so the "
+          "full-strength theorems apply to all three protocols on the current tree. Not modelled: @mrpc, aux contexts, async results, push output, Redirect, non-default message naming.",
   'technique': 'Coq proof over a Gallina model of NullServer and the wire pipeline + fail-closed ast translator (nullsrv) + differential correspondence and NullServer-vs-wire oracle',
  },
  'C07': {
@@ -256,4 +258,4 @@ NOT_APPLICABLE = {}
 # checks that exist but are temporarily not claimed (being reconciled with repairs of other properties)
 SUSPENDED = {'C04': 'built and merged; being reconciled with the final set of repairs in /repo (C10/C01/C02 changed code its model pins); not claimed until green again',
              'C11': 'built and merged; being reconciled with the final set of repairs in /repo (a routing skeleton its translator matches changed); not claimed until green again',
-             'C18': 'built and merged; being reconciled with the final set of repairs in /repo (HierDictDocument.deserialize changed shape); not claimed until green again'}
+             }
